@@ -28,6 +28,7 @@ RSIZE = len("0.5\t1\n")
 assert HSIZE == len(LR.header_text("streak", "one"))
 SMALL = HSIZE + 2 * RSIZE          # reached exactly by a file with two records
 LARGE = 5000                       # never reached
+TLC_TIMEOUT = 8 * 3600             # slowness of a loaded machine must never become a verdict
 
 
 def log_dir(root, reuse):
@@ -83,26 +84,61 @@ def durable(st):
     return {r: tuple(tuple(f[:st["dur"][r][k]]) for k, f in enumerate(st["ret"][r])) for r in st["ret"]}
 
 
+def same_files(a, b):
+    return [replay.norm(f) for f in a] == [replay.norm(f) for f in b]
+
+
 class RotAdapter:
-    """in-process behaviours: projection = public logger state + files on disk (never flushed by the harness)"""
+    """in-process behaviours: projection = public logger state + files on disk (never flushed by the harness).
+    NewSession (after the logger stopped): the world is dropped without touching its files and a new one - fresh store,
+    Logger and Log objects - is built over the same prefix, as a new process would."""
 
     def __init__(self, init):
-        c, r = init["cfg"], init["rcfg"]
+        self.init = init
         self.exp = init
-        self.w = LR.LogWorld(set(c["logs"]), c["sel"], c["period"], LR.new_root("c23"), keep=r["keep"], cycle=r["cycle"],
-                             size=r["size"], flush=r["flush"], reuse=r["reuse"])
+        self.root = LR.new_root("c23")
+        self.dirs = []
+        self.olddir = self.oldseen = None
+        self.w = self.world(True)
+
+    def world(self, fresh):
+        c, r = self.init["cfg"], self.init["rcfg"]
+        return LR.LogWorld(set(c["logs"]), c["sel"], c["period"], self.root, keep=r["keep"], cycle=r["cycle"],
+                           size=r["size"], flush=r["flush"], reuse=r["reuse"], fresh=fresh)
+
+    def directory(self):
+        d = self.w.logger.path or None
+        if d is None and self.init["rcfg"]["reuse"] and self.dirs:
+            d = self.dirs[-1]          # the new process has not started its logger yet: the reused directory is still there
+        return d
 
     def project(self, expected=None):
         exp = expected or self.exp
         w = self.w
         q = w.store.stamp / LR.TICK
         status, desire = w.names()
-        d = w.logger.path or None
-        return {"now": int(q) if q == int(q) else repr(w.store.stamp), "sq": tuple(w.q[w.qfield]),
-                "status": status, "desire": desire,
-                "ret": check_ret(d, w.rules, w.sel, exp["ret"], durable(exp))}
+        out = {"now": int(q) if q == int(q) else repr(w.store.stamp), "sq": tuple(w.q[w.qfield]),
+               "status": status, "desire": desire,
+               "ret": check_ret(self.directory(), w.rules, w.sel, exp["ret"], durable(exp))}
+        if self.olddir:
+            now = {r: disk_files(self.olddir, r, w.sel, len(exp["old"][r])) for r in w.rules}
+            out["old"] = exp["old"] if all(same_files(now[r], self.oldseen[r]) for r in w.rules) else {r: tuple(now[r]) for r in now}
+        return out
 
     def step(self, name, args, expected):
+        if name == "NewSession":
+            w = self.w
+            d = w.logger.path
+            w.logger.close()
+            if d:
+                self.dirs.append(d)
+                if not self.init["rcfg"]["reuse"]:
+                    self.olddir = d
+                    self.oldseen = {r: disk_files(d, r, w.sel, len(expected["old"][r])) for r in w.rules}
+                    if not all(same_files(self.oldseen[r], expected["old"][r]) for r in w.rules):
+                        return {"old": {r: tuple(self.oldseen[r]) for r in w.rules}}
+            self.w = self.world(False)
+            return self.project(expected)
         if name.startswith("R"):
             name = name[1:]
         if name == "PushS":
@@ -112,6 +148,14 @@ class RotAdapter:
 
     def close(self):
         self.w.close()
+        for d in self.dirs:
+            if d.startswith(self.root):
+                LR.clear_dir(d)
+                if not self.init["rcfg"]["reuse"]:
+                    try:
+                        os.rmdir(d)
+                    except OSError:
+                        pass
 
 
 _SERVER = {}
@@ -141,7 +185,7 @@ def crash_server():
             try:
                 if not job.get("fsync"):
                     LR.no_fsync()
-                w = LR.LogWorld(set(job["logs"]), job["sel"], job["period"], job["root"], **job["rot"])
+                w = LR.LogWorld(set(job["logs"]), job["sel"], job["period"], job["root"], fresh=job.get("fresh", True), **job["rot"])
                 for name, args in job["actions"]:
                     w.perform(name, tuple(args))
                 code = 17
@@ -157,29 +201,33 @@ def crash_server():
 
 
 class CrashAdapter:
-    """behaviours ending in Crash: the steps are collected and executed in a process that is killed after the last one"""
+    """behaviours in which processes die: the steps of a session are collected and executed in a process that is killed
+    after the last one (Crash, or the end of the behaviour) or simply ends (logger stopped, NewSession follows); the next
+    session runs in another process over the same prefix.  The files are read between the processes and at the end."""
 
     def __init__(self, init):
         self.init = init
         self.prev = init
         self.actions = []
+        self.nrun = 0
+        self.pending = True          # the current session has not been executed yet
+        self.detached = False        # more survived a crash than the model keeps: the continuation is not comparable
+        self.upper = None
+        self.known = []
+        self.olddir = self.oldseen = None
         self.root = os.path.join(LR.new_root("c23x"), "s%d" % next(LR._count))
+        c = init["cfg"]
+        self.rules = [x for x in LR.RULE_ORDER if x in c["logs"]]
+        self.sel = c["sel"]
+        self.reuse = init["rcfg"]["reuse"]
 
-    def step(self, name, args, expected):
-        if name != "Crash":
-            if name.startswith("R"):
-                name = name[1:]
-            if name == "PushS":
-                args = (expected["sq"][-1],)
-            self.actions.append([name, list(args)])
-            self.prev = expected
-            return None
+    def run(self):
         c, r = self.init["cfg"], self.init["rcfg"]
         os.makedirs(self.root, exist_ok=True)
         # os.fsync costs tens of milliseconds on a busy disk and cannot be told from a plain flush by killing a process:
         # it is the real one in every 16th scenario only
         job = {"logs": sorted(c["logs"]), "sel": c["sel"], "period": c["period"], "root": self.root, "actions": self.actions,
-               "fsync": next(LR._count) % 16 == 0,
+               "fsync": next(LR._count) % 16 == 0, "fresh": self.nrun == 0,
                "rot": {"keep": r["keep"], "cycle": r["cycle"], "size": r["size"], "flush": r["flush"], "reuse": r["reuse"]}}
         p = server()
         p.stdin.write(json.dumps(job) + "\n")
@@ -192,15 +240,92 @@ class CrashAdapter:
                     err = f.read()
             except OSError:
                 pass
-            raise RuntimeError("scenario process ended with %r instead of dying at the crash point\n%s" % (rc, err[-1500:]))
-        d = log_dir(self.root, r["reuse"])
-        rules = [x for x in LR.RULE_ORDER if x in c["logs"]]
-        # what survives lies between the durable prefixes (= the model's files after Crash) and what had been written
-        got = check_ret(d, rules, c["sel"], self.prev["ret"], expected["ret"])
-        lo = {k: replay.norm(v) for k, v in expected["ret"].items()}
-        up = {k: replay.norm(v) for k, v in self.prev["ret"].items()}
-        ret = {k: (lo[k] if got[k] == tuple(up[k]) else got[k]) for k in got}
-        return {"crashed": True, "ret": ret}
+            raise RuntimeError("scenario process ended with %r instead of dying at the chosen point\n%s" % (rc, err[-1500:]))
+        self.nrun += 1
+        self.actions = []
+        self.pending = False
+
+    def directory(self):
+        """the directory of the session that ran last (None when its logger never started)"""
+        if self.reuse:
+            d = os.path.join(self.root, "hs", "lg")
+            return d if os.path.isdir(d) else None
+        ds = [d for d in sorted(glob.glob(os.path.join(self.root, "hs", "lg_*"))) if d not in self.known]
+        return ds[-1] if ds else None
+
+    def disk(self, d, like):
+        return {r: disk_files(d, r, self.sel, len(like[r])) for r in self.rules}
+
+    def between(self, d, upper, lower):
+        """`ret` as the specification has it (lower) when the disk lies between lower and upper, else the disk"""
+        got = check_ret(d, self.rules, self.sel, upper, lower)
+        return {r: (replay.norm(lower[r]) if got[r] == tuple(replay.norm(f) for f in upper[r]) else got[r]) for r in got}
+
+    def old_check(self, expected):
+        if not self.olddir:
+            return {}
+        now = self.disk(self.olddir, expected["old"])
+        if all(same_files(now[r], self.oldseen[r]) for r in self.rules):
+            return {"old": expected["old"]}
+        return {"old": {r: tuple(now[r]) for r in now}}
+
+    def step(self, name, args, expected):
+        if name == "Crash":
+            self.run()
+            d = self.directory()
+            self.upper = self.prev["ret"]
+            out = {"crashed": True, "ret": self.between(d, self.prev["ret"], expected["ret"])}
+            # the model goes on from the durable prefixes; if more survived (an extra flush is allowed) the next session
+            # appends to something else than the model's files (a main file with only its header counts as the empty one)
+            disk = self.disk(d, expected["ret"])
+            for r in self.rules:
+                for k, f in enumerate(expected["ret"][r]):
+                    a, b = replay.norm(disk[r][k]), replay.norm(f)
+                    if a != b and not (k == 0 and b == () and a == (replay.norm(LR.HDR),)):
+                        self.detached = True
+            out.update(self.old_check(expected))
+            self.prev = expected
+            return out
+        if name == "NewSession":
+            if self.pending:              # the logger stopped and the process ends: everything is closed
+                self.run()
+                self.upper = self.prev["ret"]
+            d = self.directory()
+            out = {}
+            if self.reuse:
+                if not self.detached:
+                    out["ret"] = self.between(d, self.upper, expected["ret"])
+            else:
+                if d:
+                    self.known.append(d)
+                    self.olddir = d
+                    self.oldseen = self.disk(d, expected["old"])
+                    up = [replay.norm(f) for r in self.rules for f in self.upper[r]]
+                    lo = [replay.norm(f) for r in self.rules for f in expected["old"][r]]
+                    got = [replay.norm(f) for r in self.rules for f in self.oldseen[r]]
+                    if not all(bounded(lo[k], up[k], got[k]) for k in range(len(up))):
+                        out["old"] = {r: tuple(self.oldseen[r]) for r in self.rules}
+            self.prev = expected
+            self.pending = True
+            return out
+        if name == "End":
+            if not self.pending or (self.nrun > 0 and not self.actions):
+                return self.old_check(expected) if self.nrun else None
+            self.run()
+            out = {}
+            if not (self.reuse and self.detached):
+                low = durable(expected)
+                got = self.between(self.directory(), expected["ret"], low)
+                out["ret"] = {r: (expected["ret"][r] if got[r] == replay.norm(low[r]) else got[r]) for r in got}
+            out.update(self.old_check(expected))
+            return out
+        if name.startswith("R"):
+            name = name[1:]
+        if name == "PushS":
+            args = (expected["sq"][-1],)
+        self.actions.append([name, list(args)])
+        self.prev = expected
+        return None
 
     def close(self):
         shutil.rmtree(self.root, ignore_errors=True)
@@ -270,15 +395,15 @@ def calibrate():
 
 # ------------------------------------------------------------------ configurations
 def cfg_text(rulesets, maxtime, maxenv, keeps, cycles, sizes, flushes, reuses, retry, stop, crashes, restart=True, history=False,
-             props=False, maxq=2):
+             props=False, maxq=2, sessions=1):
     def s(x):
         return "{" + ", ".join(str(i) for i in x) + "}"
     t = LR.cfg_text(rulesets, ["one"], [1], maxtime, maxenv, maxq=maxq, restart=restart, serial=True, history=history)
     t = t.replace("SPECIFICATION Spec", "SPECIFICATION RSpec")
     t += ("  Keeps = %s\n  Cycles = %s\n  Sizes = %s\n  Flushes = %s\n  Reuses = %s\n  HSize = %d\n  RSize = %d\n"
-          "  RetryRefused = %s\n  StopCycles = \"%s\"\n  Crashes = \"%s\"\n" % (
+          "  RetryRefused = %s\n  StopCycles = \"%s\"\n  Crashes = \"%s\"\n  Sessions = %d\n" % (
               s(keeps), s(cycles), s(sizes), s(flushes), s(str(b).upper() for b in reuses), HSIZE, RSIZE,
-              str(retry).upper(), stop, crashes))
+              str(retry).upper(), stop, crashes, sessions))
     if props:
         for p in ("TypeOK", "RTypeOK", "Contiguous", "NewestComplete", "HeaderFirst", "RotateOnlyAtSize", "DurableAfterCrash"):
             t += "INVARIANT %s\n" % p
@@ -335,7 +460,8 @@ def run_c23(ctx):
     pol = dict(retry=retry, stop=stop)
     # model checking of the properties (history kept, the process may die anywhere)
     mcs = [("always", cfg_text([A], ctx.pick(4, 6), 1, crashes="any", history=True, props=True, **pol, **ctx.pick(mid, full))),
-           ("streak", cfg_text([S], ctx.pick(3, 4), 2, crashes="any", history=True, props=True, **pol, **small))]
+           ("streak", cfg_text([S], ctx.pick(3, 4), 2, crashes="any", history=True, props=True, **pol, **small)),
+           ("sessions", cfg_text([A], ctx.pick(3, 4), 1, crashes="any", history=True, props=True, sessions=2, restart=False, **pol, **small))]
     # graphs to replay
     graphs = [("always", cfg_text([A], ctx.pick(5, 6), 1, crashes="never", restart=not ctx.quick, **pol, **ctx.pick(mid, full)))]
     if not ctx.quick:
@@ -344,19 +470,20 @@ def run_c23(ctx):
     nsim, ncr = ctx.pick(150, 2000), ctx.pick(120, 1000)
     pref = env.subdir("c23sim") + "/sim"
     prefc = env.subdir("c23simc") + "/sim"
-    scfg = cfg_text([A, S, A | S], ctx.pick(7, 9), 2, crashes="never", **pol, **full)
-    ccfg = cfg_text([A, S, A | S], ctx.pick(7, 9), 2, crashes="point", **pol, **full)
+    # two processes one after the other: the second starts after the first one's logger stopped / after it was killed
+    scfg = cfg_text([A, S, A | S], ctx.pick(6, 8), 2, crashes="never", sessions=2, **pol, **full)
+    ccfg = cfg_text([A, S, A | S], ctx.pick(6, 8), 2, crashes="point", sessions=2, **pol, **full)
     total = covered = steps = ncrash = 0
     with ThreadPoolExecutor(max_workers=6) as tp:
-        f_mc = [(n, tp.submit(tlc.run, "LogRotate", c, spec_dir=SPEC_DIR, deadlock=False, tag="c23mc" + n, workers=max(1, ncpu // 4)))
+        f_mc = [(n, tp.submit(tlc.run, "LogRotate", c, spec_dir=SPEC_DIR, deadlock=False, tag="c23mc" + n, workers=max(1, ncpu // 4), timeout=TLC_TIMEOUT))
                 for n, c in mcs]
         dots = {n: env.subdir("c23") + "/%s.dot" % n for n, _ in graphs}
         f_g = [(n, tp.submit(tlc.run, "LogRotate", c, spec_dir=SPEC_DIR, deadlock=False, dump_dot=dots[n], tag="c23g" + n,
-                             coverage=False, workers=max(1, ncpu // 4))) for n, c in graphs]
+                             coverage=False, workers=max(1, ncpu // 4), timeout=TLC_TIMEOUT)) for n, c in graphs]
         f_sim = tp.submit(tlc.run, "LogRotate", scfg, spec_dir=SPEC_DIR, deadlock=False, workers=1,
-                          simulate={"num": nsim, "depth": ctx.pick(70, 100), "file": pref}, seed=ctx.seed + 3, tag="c23sim")
+                          simulate={"num": nsim, "depth": ctx.pick(150, 180), "file": pref}, seed=ctx.seed + 3, tag="c23sim", timeout=TLC_TIMEOUT)
         f_simc = tp.submit(tlc.run, "LogRotate", ccfg, spec_dir=SPEC_DIR, deadlock=False, workers=1,
-                           simulate={"num": ncr, "depth": ctx.pick(70, 100), "file": prefc}, seed=ctx.seed + 4, tag="c23simc")
+                           simulate={"num": ncr, "depth": ctx.pick(150, 180), "file": prefc}, seed=ctx.seed + 4, tag="c23simc", timeout=TLC_TIMEOUT)
         for n, f in f_g:
             res = f.result()
             laps.lap("graph-tlc")
@@ -383,15 +510,56 @@ def run_c23(ctx):
             laps.lap("graph-replay")
         res = f_sim.result()
         ctx.add_model(res, "LogRotate/simulate", {"num": nsim})
-        sims = replay.load_sim_traces(pref)
-        shutil.rmtree(os.path.dirname(pref), ignore_errors=True)
         res = f_simc.result()
         ctx.add_model(res, "LogRotate/simulate-crash", {"num": ncr})
-        crash = [t for t in replay.load_sim_traces(prefc) if t[-1][1][0] == "Crash"]
-        shutil.rmtree(os.path.dirname(prefc), ignore_errors=True)
         laps.lap("simulate-tlc")
-        if len(sims) < nsim // 2 or len(crash) < ncr // 2:
-            raise tlc.TlcError("simulation produced %d + %d behaviours instead of %d + %d" % (len(sims), len(crash), nsim, ncr))
+
+        def load():
+            a = replay.load_sim_traces(pref)
+            b = replay.load_sim_traces(prefc)
+            return (a + [t for t in b if not has(t, "Crash")],          # (a new session may begin before the crash point)
+                    [t for t in b if has(t, "Crash")])
+
+        def has(t, name):
+            return any(s[1][0] == name for s in t)
+
+        def kinds(sims, crash):
+            """what the simulated behaviours exercise (vacuity guards: counts of behaviours, independent of speed)"""
+            pre = [t[i - 1][2] for t in crash for i in range(1, len(t)) if t[i][1][0] == "Crash"]
+            return {"behaviours without crash": len(sims), "behaviours with crash": len(crash),
+                    "second session rotating over reused files": sum(
+                        1 for t in sims + crash if any(s[2]["session"] == 2 and s[2]["rotated"] > 0 and s[2]["rcfg"]["reuse"] for s in t[1:])),
+                    "second session in a fresh directory": sum(
+                        1 for t in sims + crash if any(s[2]["session"] == 2 and not s[2]["rcfg"]["reuse"] and s[2]["status"] != "stopped" for s in t[1:])),
+                    "crash with unflushed data": sum(1 for st in pre if any(st["dur"][r][0] < len(st["ret"][r][0]) for r in st["ret"])),
+                    "crash after a rotation": sum(1 for st in pre if any(len(f) > 0 for r in st["ret"] for f in st["ret"][r][1:]))}
+
+        want = {"behaviours without crash": nsim // 2, "behaviours with crash": ncr // 5, "second session rotating over reused files": 5,
+                "second session in a fresh directory": 5, "crash with unflushed data": 5, "crash after a rotation": 5}
+        sims, crash = load()
+        have = kinds(sims, crash)
+        if any(have[k] < want[k] for k in want):
+            # too few of some kind (an unlucky seed, or TLC wrote fewer files than asked): simulate once more, add to what there is
+            for cfgx, px, sd, tg in ((scfg, pref + "b", ctx.seed + 1003, "c23simb"), (ccfg, prefc + "b", ctx.seed + 1004, "c23simcb")):
+                res = tlc.run("LogRotate", cfgx, spec_dir=SPEC_DIR, deadlock=False, workers=1, seed=sd, tag=tg, timeout=TLC_TIMEOUT,
+                              simulate={"num": max(nsim, ncr), "depth": ctx.pick(150, 180), "file": px})
+                ctx.add_model(res, "LogRotate/simulate-again")
+            sims, crash = load()
+            have = kinds(sims, crash)
+            laps.lap("simulate-tlc")
+        shutil.rmtree(os.path.dirname(pref), ignore_errors=True)
+        shutil.rmtree(os.path.dirname(prefc), ignore_errors=True)
+        short = {k: have[k] for k in want if have[k] < want[k]}
+        if any(v == 0 for v in short.values()):
+            raise tlc.TlcError("vacuous simulation (after a second attempt): %r" % have)
+        if short:
+            ctx.note("simulation yielded fewer behaviours of some kinds than intended (went on with them): %r" % short)
+        second, fresh = have["second session rotating over reused files"], have["second session in a fresh directory"]
+        lost, rot = have["crash with unflushed data"], have["crash after a rotation"]
+        # every third behaviour in which a stopped logger is followed by a new session also runs as separate processes
+        moved = [t for i, t in enumerate(t for t in sims if has(t, "NewSession")) if i % 3 == 0]
+        sims = [t for t in sims if not any(t is m for m in moved)]
+        crash = [t + [("End", ("End", ()), t[-1][2])] for t in crash + moved]
         k, divs = LR.preplay("C23", sims, _mk_rot, post=annotate)
         steps += k
         ctx.diverge(divs)
@@ -400,10 +568,6 @@ def run_c23(ctx):
         k, divs = LR.preplay("C23", crash, _mk_crash, post=annotate)
         steps += k
         ctx.diverge(divs)
-        lost = sum(1 for t in crash if any(t[-2][2]["dur"][r][0] < len(t[-2][2]["ret"][r][0]) for r in t[-2][2]["ret"]))
-        rot = sum(1 for t in crash if any(len(f) > 0 for r in t[-2][2]["ret"] for f in t[-2][2]["ret"][r][1:]))
-        if lost < len(crash) // 20 or rot < len(crash) // 20:
-            raise tlc.TlcError("vacuous crash simulation: %d of %d with unflushed data, %d after a rotation" % (lost, len(crash), rot))
         ctx.add_validated(len(crash), {"crash behaviour": [s[0] for s in crash[len(crash) // 2]][:40]})
         laps.lap("crash-replay")
         for n, f in f_mc:
@@ -412,12 +576,14 @@ def run_c23(ctx):
             if not res.ok:
                 LR.model_error(ctx, "C23", res, "LogRotate/" + n)
             else:
-                tlc.require_coverage(res, RACTIONS if n == "streak" else [a for a in RACTIONS if a != "RPushS"], "LogRotate/" + n)
+                tlc.require_coverage(res, (RACTIONS if n == "streak" else [a for a in RACTIONS if a != "RPushS"])
+                                     + (["NewSession"] if n == "sessions" else []), "LogRotate/" + n)
         laps.lap("model-wait")
     ctx.exhaustive = (covered == total)
     ctx.extra.update({"graph_edges": total, "edges_replayed": covered, "steps_replayed": steps, "simulated_behaviours": len(sims),
                       "crash_scenarios_in_child_processes": ncrash + len(crash), "crash_scenarios_with_unflushed_data": lost,
-                      "crash_scenarios_after_rotation": rot, "phase_wall_s": laps.d,
+                      "crash_scenarios_after_rotation": rot, "second_sessions_rotating_over_reused_files": second,
+                      "second_sessions_in_fresh_directory": fresh, "phase_wall_s": laps.d,
                       "distinct_nontrivial": covered + len(sims) + len(crash), "evaluations": steps})
 
 
